@@ -643,7 +643,13 @@ def strategy_(draw, tier):
         except Invalid:
             continue
         ops.append(op)
-    return {"ndds": ndds, "ops": ops}
+    return {"ndds": ndds, "ops": ops, "twin": draw(st.integers(0, 3)) == 0}
+
+
+def twin_elem(k):
+    """element k of the twin file: same tag/ref, linked blocks of another geometry, other length and bytes"""
+    n = 20 + 7 * k
+    return 3 + k, 2, n, pat(90 + k, n, 0)
 
 
 def strategy(tier):
@@ -655,6 +661,21 @@ def emit(case, d):
     p = Prog()
     path = os.path.join(d, "a.hdf")
     plan = []      # (op, [linenos])
+    pre = []
+    if case.get("twin"):
+        # a second file holding special elements under the same tags/refs, with read access ids that stay open
+        # during the whole history on the first file: nothing of one file may show through the other
+        pb = os.path.join(d, "b.hdf")
+        p.call("i", "Hopen", pb, 7, 0, bind="fb")
+        for k, (t, r) in enumerate(KEYS):
+            bl, nb, n, data = twin_elem(k)
+            p.call("i", "HLcreate", V("fb"), t, r, bl, nb, bind="tb")
+            pre.append(("twret", n, p.call("i", "Hwrite", V("tb"), n, data)))
+            p.call("i", "Hendaccess", V("tb"))
+        pre.append(("twret", 0, p.call("i", "Hclose", V("fb"))))
+        pre.append(("twopen", None, p.call("i", "Hopen", pb, 1, 0, bind="fb")))
+        for k, (t, r) in enumerate(KEYS):
+            pre.append(("twopen", None, p.call("i", "Hstartread", V("fb"), t, r, bind="tb%d" % k)))
     ln0 = p.call("i", "Hopen", path, 7, case["ndds"], bind="f")
     shadow = Model()   # to know which slots are live at reopen time
     # upper bound on any element length reachable in this case (sizes buffers independently of the model)
@@ -739,7 +760,18 @@ def emit(case, d):
             return None, None, None
         plan.append((op, lines, extra))
     # epilogue: release everything, close, reopen read-only and read every element back
-    fin = []
+    fin = list(pre)
+    if case.get("twin"):
+        for k, (t, r) in enumerate(KEYS):
+            bl, nb, n, data = twin_elem(k)
+            # through the access id opened before the history, and through one opened now
+            fin.append(("twread", k, p.call("i", "Hread", V("tb%d" % k), 0, Out(n + 64))))
+            fin.append(("twopen", None, p.call("i", "Hstartread", V("fb"), t, r, bind="tc")))
+            fin.append(("twlen", k, p.call("i", "Hinquire", V("tc"), Out(4), Out(2), Out(2), Out(4), Out(4), Out(4), Out(2), Out(2))))
+            fin.append(("twread", k, p.call("i", "Hread", V("tc"), 0, Out(n + 64))))
+            fin.append(("twret", 0, p.call("i", "Hendaccess", V("tc"))))
+            fin.append(("twret", 0, p.call("i", "Hendaccess", V("tb%d" % k))))
+        fin.append(("twret", 0, p.call("i", "Hclose", V("fb"))))
     for s in range(NSLOT):
         if shadow.a[s] is not None:
             fin.append(("end", s, p.call("i", "Hendaccess", V("a%d" % s))))
@@ -794,6 +826,22 @@ def check(case, rr, plan, tail):
     # epilogue
     for role, k, ln in fin:
         r = res(ln)
+        if role.startswith("tw"):
+            m.labels.add("twin_file")
+            if role == "twret" and r.ret != k:
+                raise Fail("a call on the twin file failed", line=ln, expected=k, observed=r.ret)
+            if role == "twopen" and r.ret == -1:
+                raise Fail("opening the twin file / an access id on it failed", line=ln)
+            if role == "twlen":
+                n = twin_elem(k)[2]
+                got = struct.unpack("=i", r.bufs[3])[0]
+                if r.ret != 0 or got != n:
+                    raise Fail("Hinquire on the twin file's element reports another length", key=list(KEYS[k]), expected=n, observed=got)
+            if role == "twread":
+                n, data = twin_elem(k)[2:]
+                if r.ret != n or r.bufs[0][:n] != data:
+                    raise Fail("the twin file's element reads back other bytes than it holds", key=list(KEYS[k]), expected=n, observed=r.ret)
+            continue
         if role in ("end", "close"):
             if role == "end" and m.a[k] is None:
                 continue    # slot never became live (a tolerated refusal): nothing to release
